@@ -229,6 +229,17 @@ func (c06) Gen(r *world.Rng, tier string, n int) interface{} {
 		ev := world.Event{Kind: world.EvINT, Data: mkData(), Boundary: 0}
 		if isNMI {
 			ev = world.Event{Kind: world.EvNMI, Boundary: 0}
+		} else if mode == 0 && r.Chance(1, 6) {
+			// accepted at the boundary directly in front of the service routine: the supplied
+			// RST/CALL's target is the address right behind the overlaid bytes (PC+len)
+			d, _ := hex.DecodeString(ev.Data)
+			target := tc
+			if len(d) == 1 {
+				target = uint16(d[0] & 0x38)
+			}
+			np := target - uint16(len(d))
+			sc.Image[len(sc.Image)-1].Addr = np // the main program moves with PC
+			sc.Regs.PC = np
 		}
 		sc.Events = []world.Event{ev}
 		return sc
